@@ -10,6 +10,7 @@ The scratch worktree and its build output are removed at the end."""
 import sys, os, subprocess, json, shutil, glob, time, re
 
 V = os.path.dirname(os.path.dirname(os.path.abspath(__file__)))
+REPO = os.environ.get('VERIF_REPO', '/repo')   # the tree the checks read (vlib honours the same variable)
 
 
 def sh(cmd, cwd=None, timeout=3600, env=None):
@@ -78,11 +79,11 @@ def main():
     res['confirmed'] = bool(confirmed)
     detections = {}
     if confirmed:
-        rc, out = sh('git -C /repo status --porcelain')
+        rc, out = sh('git -C %s status --porcelain' % REPO)
         if out.strip():
-            print('/repo is not clean; refusing to apply')
+            print('%s is not clean; refusing to apply' % REPO)
             return 3
-        rc, out = apply_patch(patch, '/repo')
+        rc, out = apply_patch(patch, REPO)
         try:
             for c in [prop] + [x for x in extra if x != prop]:
                 t0 = time.time()
@@ -91,8 +92,8 @@ def main():
                 detections[c] = {'exit': rc, 'lines': lines[:6], 'wall_s': round(time.time() - t0, 1)}
                 log['steps'].append({'cmd': './check %s --tier quick (patch applied to /repo)' % c, 'exit': rc, 'lines': lines[:6]})
         finally:
-            sh('git -C /repo checkout -- .')
-            sh('git -C /repo clean -fdq src')
+            sh('git -C %s checkout -- .' % REPO)
+            sh('git -C %s clean -fdq src' % REPO)
     res['detections'] = detections
     res['caught_by'] = [c for c, d in detections.items() if d['exit'] == 1]
     # store
